@@ -451,10 +451,14 @@ def lockstep(ctx, monitors, want=None, corr_name='lock-step: registry model trac
 # a real delivery on the mutating thread at every INSTRUCTION boundary of register / unregister /
 # unregister_signal (harness/src/bin/p_nested_reg.rs; fork per boundary; hook-independent)
 REG_CONFIGS = ([('r', str(n), p) for n in (0, 1, 2, 3) for p in 'ihs'] + [('u0', str(n), p) for n in (1, 2) for p in 'ihs'] +
-               [('u1', '2', p) for p in 'ihs'] + [('x', str(n), p) for n in (1, 2) for p in 'ihs'])
+               [('u1', '2', p) for p in 'ihs'] + [('x', str(n), p) for n in (1, 2) for p in 'ihs'] +
+               # previous handlers installed with SA_RESETHAND|SA_NODEFER|SA_ONSTACK and a mask
+               # (only where the library owns the signal already: a delivery before the take-over would consume a one-shot handler)
+               [('r', '1', 'H'), ('r', '1', 'S'), ('u0', '1', 'H'), ('x', '2', 'S')])
 REG_NAMES = {'r': 'register', 'u0': 'unregister(first action)', 'u1': 'unregister(second action)', 'x': 'unregister_signal',
-             'i': 'ignored before', 'h': 'a plain handler before', 's': 'a SA_SIGINFO handler before'}
-REG_KINDS = {'C01': ('AFTER', 'DROP', 'CRASH'), 'C02': ('SNAPSHOT', 'AFTER', 'OTHER', 'CRASH'), 'C03': ('BLOCKED', 'CRASH'), 'C04': ('CHAIN',), 'C18': ('BLOCKED',)}
+             'i': 'ignored before', 'h': 'a plain handler before', 's': 'a SA_SIGINFO handler before',
+             'H': 'a plain SA_RESETHAND|SA_NODEFER|SA_ONSTACK handler before', 'S': 'a SA_SIGINFO|SA_RESETHAND|SA_NODEFER|SA_ONSTACK handler before'}
+REG_KINDS = {'C01': ('AFTER', 'DROP', 'CRASH'), 'C02': ('SNAPSHOT', 'AFTER', 'OTHER', 'CRASH'), 'C03': ('BLOCKED', 'CRASH'), 'C04': ('CHAIN', 'CRASH'), 'C18': ('BLOCKED',)}
 
 
 def reg_one(cfg, konly=None, timeout=240):
